@@ -399,7 +399,10 @@ def save_score_midi(
 
         def to_ppq(t):
             # convert div times to new ppq
-            return int(ppq * (qm(t) - ftp))
+            # ppq is a multiple of every quarter duration, so the exact value is an
+            # integer; the quarter map is a float interpolation, so round (int()
+            # truncates e.g. 1.9999999 to 1)
+            return int(round(float(ppq * (qm(t) - ftp))))
 
         for tp in part.iter_all(score.Tempo):
             tempos[to_ppq(tp.start.t)] = MetaMessage(
